@@ -134,6 +134,8 @@ type retryParams struct {
 	Chunk  int            `json:"chunk,omitempty"`
 	Late   bool           `json:"late,omitempty"`
 	Slow   int            `json:"slow,omitempty"`
+	Close  string         `json:"close,omitempty"`  // transport error style after a local Close
+	Linger int            `json:"linger,omitempty"` // transport Close returns late
 	Client string         `json:"client,omitempty"` // "" = reconnect | retry | retry-retryfirst
 	Mode   string         `json:"mode"`             // single | pairs | random | steer | one
 	Part   int            `json:"part,omitempty"`
@@ -154,7 +156,7 @@ func (p retryParams) base() scen.Scenario {
 	if p.W == "echo" {
 		p.Cfg.Echo = true
 	}
-	return scen.Scenario{Client: cl, Cfg: p.Cfg, AlwaysResub: p.Always, Chunk: p.Chunk, LateWriteOK: p.Late, SlowReturn: p.Slow, Pre: w.Pre, Steps: w.Steps, OnConnect: w.OnC, SlowActive: w.Slow, PingMs: w.PingMs, TimeoutMs: w.TimeoutMs}
+	return scen.Scenario{Client: cl, Cfg: p.Cfg, AlwaysResub: p.Always, Chunk: p.Chunk, LateWriteOK: p.Late, SlowReturn: p.Slow, CloseStyle: p.Close, CloseLinger: p.Linger, Pre: w.Pre, Steps: w.Steps, OnConnect: w.OnC, SlowActive: w.Slow, PingMs: w.PingMs, TimeoutMs: w.TimeoutMs}
 }
 
 func cfgName(c scen.BrokerCfg, always bool, chunk int, late bool) string {
@@ -195,7 +197,7 @@ func cfgs(methods, sessions []string, always []bool) []retryParams {
 		for _, s := range sessions {
 			for _, a := range always {
 				i++
-				out = append(out, retryParams{Cfg: scen.BrokerCfg{Method: m, Session: s}, Always: a, Chunk: []int{0, 1, 0, 3}[i%4], Late: i%3 == 0, Slow: []int{0, 2, 0}[i%3]})
+				out = append(out, retryParams{Cfg: scen.BrokerCfg{Method: m, Session: s}, Always: a, Chunk: []int{0, 1, 0, 3}[i%4], Late: i%3 == 0, Slow: []int{0, 2, 0}[i%3], Close: []string{"pipe", "net", ""}[i%3], Linger: []int{0, 0, 2, 0}[(i+1)%4]})
 			}
 		}
 	}
@@ -783,6 +785,8 @@ func fuzzScenario(rng *rand.Rand) scen.Scenario {
 	sc.SlowReturn = []int{0, 0, 2}[rng.Intn(3)]
 	sc.Client = []string{"reconnect", "reconnect", "reconnect", "retry", "retry-retryfirst", "retry-chaotic"}[rng.Intn(6)]
 	sc.SlowActive = rng.Intn(8) == 0
+	sc.CloseStyle = []string{"pipe", "net", ""}[rng.Intn(3)]
+	sc.CloseLinger = []int{0, 0, 0, 2}[rng.Intn(4)]
 	// fault plan
 	w := workload{Pre: sc.Pre, Steps: sc.Steps}
 	n := w.reqPackets()
